@@ -1,7 +1,8 @@
 import Iox2.Model.PubSub
+import Iox2.Model.Shutdown
 import Driver.Util
 namespace Driver.PubSubD
-open Iox2.PubSub Driver
+open Iox2.PubSub Iox2.Shutdown Driver
 
 def optNat (s : String) : Option Nat := if s = "-" then none else some (nat! s)
 
@@ -22,18 +23,27 @@ def parse (t : List String) : Option Op :=
   | ["has", s] => some (.has (nat! s))
   | _ => none
 
-def stepLine (w : Option World) (t : List String) : Option World × String :=
+def stepLine (w : Option SWorld) (t : List String) : Option SWorld × String :=
   match t with
-  | ["new", _variant, mp, ms, b, h, r, ov, e] =>
+  | ["new", variant, mp, ms, b, h, r, ov, e] =>
       -- service builder: without safe overflow the buffer must hold the whole history
       if ov ≠ "1" ∧ clamp1 (nat! b) < nat! h then (none, "err:service:SubscriberBufferMustBeLargerThanHistorySize") else
-      (some (World.init { maxPubs := clamp1 (nat! mp), maxSubs := clamp1 (nat! ms), bufMax := clamp1 (nat! b),
-                          hist := nat! h, borrowMax := clamp1 (nat! r), overflow := ov = "1", expired := nat! e }), "ok")
+      let cfg : Cfg := { maxPubs := clamp1 (nat! mp), maxSubs := clamp1 (nat! ms), bufMax := clamp1 (nat! b),
+                         hist := nat! h, borrowMax := clamp1 (nat! r), overflow := ov = "1", expired := nat! e }
+      (some (SWorld.init cfg (variant == "ipc")), "ok")
   | _ =>
-    match w, parse t with
-    | none, _ => (none, "no-world")
-    | _, none => (w, "bad-op")
-    | some w, some op => let (w', out) := step w op; (some w', out)
+    match w with
+    | none => (none, "no-world")
+    | some w =>
+      let sop : Option SOp :=
+        match t with
+        | ["dnode"] => some .dnode
+        | ["dsvc"] => some .dsvc
+        | ["ls"] => some .ls
+        | _ => (parse t).map .ps
+      match sop with
+      | none => (some w, "bad-op")
+      | some op => let (w', out) := Iox2.Shutdown.step w op; (some w', out)
 
-def comp : Comp := { σ := Option World, init := none, step := stepLine }
+def comp : Comp := { σ := Option SWorld, init := none, step := stepLine }
 end Driver.PubSubD
